@@ -72,6 +72,13 @@ func buildStoreConfig(c *sim.RunCtx, s *rt.Sched, cfg *storeCfg, m *media, proc 
 		blockdevice.VerifBlockDeviceFromFileHook, filesystem.VerifLocalDirectoryHook = oldBD, oldDir
 	}
 
+	// the real write-concurrency-limiting device decorator over the simulated
+	// devices in two thirds of the configured stores (derived from the seed,
+	// itself a tape draw)
+	writeLimit := []int64{0, 1, 2}[uint64(seed)%3]
+	if writeLimit > 0 {
+		c.Count("probe_wconfig_write_concurrency_limit", 1)
+	}
 	l := &pb.LocalBlobAccessConfiguration{
 		KeyLocationMapMaximumGetAttempts: cfg.GetAtt,
 		KeyLocationMapMaximumPutAttempts: int64(cfg.PutAtt),
@@ -82,7 +89,7 @@ func buildStoreConfig(c *sim.RunCtx, s *rt.Sched, cfg *storeCfg, m *media, proc 
 	}
 	if cfg.IndexDev {
 		l.KeyLocationMapBackend = &pb.LocalBlobAccessConfiguration_KeyLocationMapOnBlockDevice{
-			KeyLocationMapOnBlockDevice: &bd_pb.Configuration{Source: &bd_pb.Configuration_File{File: &bd_pb.FileConfiguration{Path: "/verifsim/index", SizeBytes: m.index.Size()}}},
+			KeyLocationMapOnBlockDevice: &bd_pb.Configuration{Source: &bd_pb.Configuration_File{File: &bd_pb.FileConfiguration{Path: "/verifsim/index", SizeBytes: m.index.Size()}}, WriteConcurrencyLimit: writeLimit},
 		}
 	} else {
 		l.KeyLocationMapBackend = &pb.LocalBlobAccessConfiguration_KeyLocationMapInMemory_{
@@ -91,7 +98,7 @@ func buildStoreConfig(c *sim.RunCtx, s *rt.Sched, cfg *storeCfg, m *media, proc 
 	}
 	if cfg.Disk {
 		b := &pb.LocalBlobAccessConfiguration_BlocksOnBlockDevice{
-			Source:      &bd_pb.Configuration{Source: &bd_pb.Configuration_File{File: &bd_pb.FileConfiguration{Path: "/verifsim/data", SizeBytes: m.data.Size()}}},
+			Source:      &bd_pb.Configuration{Source: &bd_pb.Configuration_File{File: &bd_pb.FileConfiguration{Path: "/verifsim/data", SizeBytes: m.data.Size()}}, WriteConcurrencyLimit: writeLimit},
 			SpareBlocks: int32(cfg.Spare),
 		}
 		if cfg.ValCache {
